@@ -271,6 +271,13 @@ func init() {
 			loc.set(st, e.S.MkSlice(s.Sort, na, ln, e.S.SlNil(s)))
 			return nil
 		},
+		"sort.(IntSlice).Sort": func(e *Exec, st *State, call *ast.CallExpr, recv Term, args []Term) []Term {
+			// x.Sort() sorts the slice held in x in place (the value receiver shares the backing array)
+			if sel, ok := call.Fun.(*ast.SelectorExpr); ok {
+				return sortModel(e, st, call, sel.X)
+			}
+			return nil
+		},
 		"sort.Ints": func(e *Exec, st *State, call *ast.CallExpr, recv Term, args []Term) []Term {
 			return sortModel(e, st, call, call.Args[0])
 		},
